@@ -1088,6 +1088,15 @@ def extend_path_cases():
     return rewrap(PROP, c11.path_growth_cases(), "start-of-run-ownership", lambda c: "extend_path" in c.unit)
 
 
+def storage_copy_ref():
+    """every copy of the state (fork, new transaction, restore after a failed frame) keeps the arbitrary-storage marker of each account:
+    without it untouched slots read as 0 and the inputs with another initial value are covered by no path (C08's unit)"""
+    from contracts import c08
+    from contracts.common import rewrap
+
+    return rewrap(PROP, c08.sevm_cases(), "symbolic-storage-survives-copies", lambda c: "run_message#storage" in c.unit)
+
+
 def setup_selection_ref():
     """a feasible setUp() path is not dropped because its feasibility query timed out (C10's unit)"""
     from contracts import c10
@@ -1097,7 +1106,7 @@ def setup_selection_ref():
 
 
 def build_cases(tier="quick"):
-    return setup_selection_ref() + extend_path_cases() + prank_funds_cases() + jumpi_cases() + check_cases() + select_cases() + calldataload_cases() + funds_cases() + alias_cases() + symbolic_jump_cases() + path_cases() + worklist_cases()
+    return storage_copy_ref() + setup_selection_ref() + extend_path_cases() + prank_funds_cases() + jumpi_cases() + check_cases() + select_cases() + calldataload_cases() + funds_cases() + alias_cases() + symbolic_jump_cases() + path_cases() + worklist_cases()
 
 
 ASSUMPTIONS = [
